@@ -36,3 +36,10 @@ pub fn outlined_attach_fragments(tracks: &mut HashMap<u32, Mp4Track>, default_sa
                     ==> final(tracks)@[id].trafs@.len() == final(tracks)@[id].moof_offsets@.len())
             && (moofs_parsed(moofs@) && trafs_parsed(old(tracks)@[id].trafs@) ==> trafs_parsed(final(tracks)@[id].trafs@)),
 { unimplemented!() }
+
+/// mdhd.rs `decode_utf16(lang.iter().cloned()).map(|r| r.unwrap_or(REPLACEMENT_CHARACTER)).collect::<String>()`:
+/// ASSUMED: three units below 0x80 decode to the three ASCII characters with those values
+#[verifier::external_body]
+pub fn outlined_decode_utf16_3(lang: &[u16; 3]) -> (r: String)
+    ensures lang[0] < 0x80 && lang[1] < 0x80 && lang[2] < 0x80 ==> r@ == seq![ascii_char(lang[0]), ascii_char(lang[1]), ascii_char(lang[2])]
+{ unimplemented!() }
